@@ -6,6 +6,7 @@
 package c15
 
 import (
+	"encoding/base64"
 	"encoding/json"
 	"fmt"
 	"os"
@@ -362,7 +363,8 @@ func runSig(c *mcx.Ctx, what string) (obs, sig string) {
 
 // ---- hostile link directories ----------------------------------------------------------------------
 
-var hostileDirs = []string{"link-name-is-directory", "link-is-symlink-loop", "link-is-dangling-symlink", "sublayout-dir-is-symlink-to-itself", "sublayout-delegates-to-itself", "two-hundred-garbage-links", "link-is-a-layout-of-foreign-key", "link-with-link-payload-null-fields", "link-huge"}
+var hostileDirs = []string{"link-name-is-directory", "link-is-symlink-loop", "link-is-dangling-symlink", "sublayout-dir-is-symlink-to-itself", "sublayout-delegates-to-itself", "two-hundred-garbage-links", "link-is-a-layout-of-foreign-key", "link-with-link-payload-null-fields", "link-huge",
+	"envelope-link-payload-not-base64", "envelope-link-payload-not-json", "envelope-link-payload-other-type", "envelope-link-payload-lacks-fields", "envelope-link-payload-empty"}
 
 func runHostile(c *mcx.Ctx, what string, dsse bool) (obs, sig string) {
 	pan := guard(func() {
@@ -405,6 +407,19 @@ func runHostile(c *mcx.Ctx, what string, dsse bool) (obs, sig string) {
 			gen.MustWrap(lay, dsse, gen.Key("ed6").Full).Dump(p)
 		case "link-with-link-payload-null-fields":
 			os.WriteFile(p, []byte(`{"signed":{"_type":"link","name":null,"materials":null,"products":null,"byproducts":null,"command":null,"environment":null},"signatures":[{"keyid":"`+k1.ID+`","sig":"00"}]}`), 0o644)
+		case "envelope-link-payload-not-base64", "envelope-link-payload-not-json", "envelope-link-payload-other-type", "envelope-link-payload-lacks-fields", "envelope-link-payload-empty":
+			// a file named like a link that is a DSSE envelope of in-toto's payload type whose payload is no link
+			// (next to nothing else for the step: the step simply has no usable evidence)
+			pay := map[string]string{
+				"envelope-link-payload-not-base64":   "!!! not base64 !!!",
+				"envelope-link-payload-not-json":     base64.StdEncoding.EncodeToString([]byte("hello, not json")),
+				"envelope-link-payload-other-type":   base64.StdEncoding.EncodeToString([]byte(`{"_type":"statement","subject":[]}`)),
+				"envelope-link-payload-lacks-fields": base64.StdEncoding.EncodeToString([]byte(`{"_type":"link"}`)),
+				"envelope-link-payload-empty":        "",
+			}[what]
+			doc, _ := json.Marshal(map[string]any{"payloadType": "application/vnd.in-toto+json", "payload": pay, "signatures": []any{}})
+			os.Remove(p)
+			os.WriteFile(p, doc, 0o644)
 		case "link-huge":
 			l := gen.Link("s1", gen.Arts(), gen.Arts())
 			for i := 0; i < 20000; i++ {
@@ -674,7 +689,7 @@ func init() {
 	mcx.Register(&mcx.Driver{
 		ID: "C15", Run: run, Replay: replay, CrashIsViolation: true,
 		Rule: "the finite neighbourhood of four valid seed files (legacy/DSSE x fully populated link/layout): every prefix (truncation at every byte) and the substitution of every third (thorough: every) byte by each of 12 bytes ({ } [ ] \" : , \\ 0 NUL 0xff space), each pushed through LoadMetadata, Metablock.Load and - when it loads - ValidateMetablock, VerifySignature, Sign and InTotoVerify; every single-point structural corruption of the seeds (the C12 walk) re-signed by the legitimate key and verified / offered as link evidence; " +
-			"two rule patterns with 24-26 wildcards against names in which their pieces recur (the call must return; half a minute is allowed for microseconds of work); a catalogue of degenerate layouts (10 odd rules in each of the four rule positions, thresholds -1/0/2/2^31, undefined / empty pubkeys, duplicate / empty / odd step names, zero steps, empty inspection commands, garbage CA entries, 5 key types x 11 key materials for a functionary key) x link directory {honest, empty, garbage}; 5 key types x 11 materials x 2 schemes used for VerifySignature, Sign and as layout key, both wrappers; 11 hostile signature entries; 9 hostile link directories (directory / symlink loop / dangling symlink as link, sublayout directory leading back to itself, 200 garbage links, huge link, null fields). " +
+			"two rule patterns with 24-26 wildcards against names in which their pieces recur (the call must return; half a minute is allowed for microseconds of work); a catalogue of degenerate layouts (10 odd rules in each of the four rule positions, thresholds -1/0/2/2^31, undefined / empty pubkeys, duplicate / empty / odd step names, zero steps, empty inspection commands, garbage CA entries, 5 key types x 11 key materials for a functionary key) x link directory {honest, empty, garbage}; 5 key types x 11 materials x 2 schemes used for VerifySignature, Sign and as layout key, both wrappers; 11 hostile signature entries; 14 hostile link directories (five DSSE envelopes named like links whose payload is no link, directory / symlink loop / dangling symlink as link, sublayout directory leading back to itself, 200 garbage links, huge link, null fields). " +
 			"Oracle: every call returns (recover in the worker, a dying or hanging worker is attributed to the case it had announced). states = cases.",
 		Assumptions: []string{"the claim over all byte strings is decided only for edit distance 1 from the seeds and for the catalogues; coverage-guided fuzzing is a different technique family and is not done",
 			"a hang is a call that does not return within 120 s although such calls take milliseconds"},
